@@ -1176,15 +1176,20 @@ pub mod implementations {
             bail!("store_skip can only store a single item");
         }
 
-        let arg = ctx.get_last_op_item().unwrap();
+        // the left operand of `&&` / `||` may be a view of a list element or of a field
+        let arg = ctx
+            .get_last_op_item()
+            .unwrap()
+            .move_out_of_heap_primitive_borrow()?;
 
-        let Primitive::Bool(val) = arg else {
+        let Primitive::Bool(val) = arg.as_ref() else {
             bail!("store_skip can only operate on bool (found {arg})");
         };
+        let val = *val;
 
         if predicate == 1 {
             // skip if true
-            if *val {
+            if val {
                 ctx.signal(InstructionExitState::Goto(lines_to_jump));
                 return Ok(());
             }
@@ -1348,7 +1353,7 @@ pub mod implementations {
             bail!("assert can only operate on a single item");
         }
 
-        let item = ctx.pop().unwrap();
+        let item = ctx.pop().unwrap().move_out_of_heap_primitive()?;
 
         let result = item.equals(&bool!(true))?;
 
@@ -1399,7 +1404,8 @@ pub mod implementations {
             bail!("if statements require at least one entry in the local stack")
         }
 
-        let item = ctx.pop().unwrap();
+        // the condition may be a view of a list element or of a field (`if flags[i]`)
+        let item = ctx.pop().unwrap().move_out_of_heap_primitive()?;
         ctx.clear_stack();
 
         let Primitive::Bool(b) = item else {
@@ -1425,7 +1431,8 @@ pub mod implementations {
             bail!("while statements require at least one entry in the local stack")
         }
 
-        let item = ctx.pop().unwrap();
+        // the condition may be a view of a list element or of a field (`if flags[i]`)
+        let item = ctx.pop().unwrap().move_out_of_heap_primitive()?;
         ctx.clear_stack();
 
         let Primitive::Bool(b) = item else {
